@@ -14,7 +14,6 @@ OUTSIDE = [
     'byte strings longer than the stated lengths for the round trips',
     'primality of the curve orders (invertibility of s in [1, n-1] is '
     'assumed)',
-    'Hex2Bytes (str-level)',
 ]
 ASSUMPTIONS = ['s has an inverse modulo the group order (n prime)']
 
@@ -425,6 +424,136 @@ def round_trips(rec, seed, bits, maxlen):
                        args=args), bad)
 
 
+class SymHex:
+  """A hex string of concrete length whose digits are symbolic nibbles."""
+
+  def __init__(self, nibbles):
+    self.nibbles = list(nibbles)
+
+  def __len__(self):
+    return len(self.nibbles)
+
+  def __bool__(self):
+    return bool(self.nibbles)
+
+  def __radd__(self, prefix):
+    if not isinstance(prefix, str) or any(c not in '0123456789abcdefABCDEF'
+                                          for c in prefix):
+      return NotImplemented
+    return SymHex([int(c, 16) for c in prefix] + self.nibbles)
+
+  def __add__(self, suffix):
+    if isinstance(suffix, SymHex):
+      return SymHex(self.nibbles + suffix.nibbles)
+    return NotImplemented
+
+  def __getitem__(self, i):
+    r = self.nibbles[i]
+    return SymHex(r) if isinstance(i, slice) else SymHex([r])
+
+  def sym_int_value(self, base):
+    if base != 16 or not self.nibbles:
+      raise ValueError('invalid literal for int()')
+    v = 0
+    for d in self.nibbles:
+      v = v * 16 + d
+    return v
+
+  def lower(self):
+    return self
+
+  upper = lower
+  strip = lower
+
+
+class _HexBytes:
+  """`bytes` look-alike for util: fromhex on SymHex, the rest as in C20."""
+
+  def __call__(self, x=None, *a):
+    return symbytes.sym_bytes(x, *a)
+
+  @staticmethod
+  def fromhex(h):
+    if not isinstance(h, SymHex):
+      return bytes.fromhex(h)
+    if len(h) % 2:
+      raise ValueError('non-hexadecimal number found in fromhex() arg')
+    out = symbytes.SymBytes()
+    for i in range(0, len(h), 2):
+      out.append(h.nibbles[i] * 16 + h.nibbles[i + 1])
+    return out
+
+
+def hex_strings(rec, seed, maxlen):
+  """Hex2Bytes(h) is the byte string h denotes (an odd number of digits is
+  completed by one leading zero digit): same number of bytes, same bytes -
+  leading zero bytes preserved."""
+  pb, ec_util, util = _mods()
+  rec.functions('paranoid_crypto.lib.util:Hex2Bytes')
+  rec.bounds('every hex string of length 0..%d (digits symbolic nibbles)' %
+             maxlen)
+  cexs = []
+  reach = 0
+  with stubs.patched(util, int=symbytes.SymInt, bytes=_HexBytes()):
+    for ln in range(0, maxlen + 1):
+
+      def run(e, ln=ln):
+        ds = [ivar(e, 'h%d' % i, lo=0, hi=16) for i in range(ln)]
+        e.notes['ds'] = ds
+        return util.Hex2Bytes(SymHex(ds))
+
+      for p in pysym.explore(run, max_paths=300):
+        e = p.eng
+        rec.path(p.kind)
+        if p.kind == 'abort':
+          rec.inconclusive('path aborted: %s' % p.value)
+          continue
+        if p.kind != 'return':
+          r, m = e.feasible()
+          if r != 'unsat':
+            cexs.append((ln, inputs_of(e, m) if m else {}))
+          continue
+        ds = [d.t for d in e.notes['ds']]
+        if ln % 2:
+          ds = [z3.IntVal(0)] + ds
+        out = list(p.value)
+        if len(out) != len(ds) // 2:
+          goal = z3.BoolVal(False)
+        else:
+          goal = z3.And([T(out[i]) == ds[2 * i] * 16 + ds[2 * i + 1]
+                         for i in range(len(out))] + [z3.BoolVal(True)])
+        r, m, _ = e.prove(goal)
+        if r == 'proved':
+          rec.obligation('proved')
+        elif r == 'unknown':
+          rec.obligation('unknown', 'Hex2Bytes')
+        else:
+          cexs.append((ln, inputs_of(e, m)))
+        reach = 1
+  rec.sample(dict(fn='Hex2Bytes', maxlen=maxlen))
+  rec.reach(1, reach)
+  for ln, cex in cexs[:3]:
+    hx = ''.join('%x' % int(cex.get('h%d' % i, 0)) for i in range(ln))
+    bad = replay_hex(hx)
+    rec.replayed()
+    rec.violation('util.Hex2Bytes', 'hex_decoding',
+                  'Hex2Bytes(%r) is not the byte string the digits denote' %
+                  hx, cex, dict(module='harness.props.c09',
+                                function='replay_hex', args=dict(hx=hx)), bad)
+
+
+def replay_hex(hx):
+  pb, ec_util, util = _mods(fakes=False)
+  want = bytes.fromhex(hx if len(hx) % 2 == 0 else '0' + hx)
+  try:
+    got = util.Hex2Bytes(hx)
+  except Exception as ex:  # pylint: disable=broad-except
+    print('Hex2Bytes(%r) raised %r' % (hx, ex))
+    return True
+  print('Hex2Bytes(%r) = %r, expected %r' % (hx, got, want))
+  return bytes(got) != want
+
+
 def replay_rt(x=None, hexbytes=None):
   pb, ec_util, util = _mods(fakes=False)
   if x is not None:
@@ -456,6 +585,9 @@ def jobs(tier, seed):
     out.append(Job('ecdsa_values_%d' % i, ecdsa_values,
                    dict(hlens=hl2[i::4], rlen=3), timeout=2400,
                    cost=2 * len(hl2)))
+  out.append(Job('hex_strings', hex_strings,
+                 dict(maxlen=12 if not thorough else 24), timeout=1200,
+                 cost=10))
   out.append(Job('round_trips', round_trips,
                  dict(bits=40 if not thorough else 48,
                       maxlen=4 if not thorough else 5), timeout=2400,
